@@ -6,7 +6,13 @@
 */
 #include <alloca.h>
 #define NOBJ 8
-struct objslot { unsigned char *base; struct crypt_data *d; void *ra_data; int ra_size; };
+#if !defined XC_SO && !defined XC_NO_PRIM
+# include "alg-sha1.h"
+# include "alg-sha256.h"
+# define XC_HAVE_DIGESTS 1
+#endif
+struct objslot { unsigned char *base; struct crypt_data *d; void *ra_data; int ra_size; int align; };
+#define XC_TAIL 32   /* guard bytes behind the object: libc's explicit_bzero / memset are not always intercepted by the sanitizer, a canary sees them all */
 static __thread struct objslot objs[NOBJ];
 
 static uint64_t sm64 (uint64_t *s)
@@ -25,10 +31,14 @@ static void op_obj (int n, char **tok)
   int id = atoi (tok[1]) % NOBJ; char fill = tok[2][0]; int align = atoi (tok[3]) & 15;
   uint64_t seed = n > 4 ? strtoull (tok[4], NULL, 10) : 1;
   free (objs[id].base);
-  /* exact-size block: 16-byte aligned base + align offset, nothing after the object */
-  objs[id].base = aligned_alloc (16, ((sizeof (struct crypt_data) + align + 15) / 16) * 16);
-  /* place the object so that it ENDS at the end of the block minus padding is not possible for
-     every align; keep it simple: object at base+align */
+  /* the object sits at offset `align` of a 16-byte aligned block, `align` guard bytes in front of it and XC_TAIL behind it, all checked after
+     every call (`edge=`); writes beyond the guard run into the sanitizer's redzone.  (An earlier version rounded the block up to a multiple of
+     16 without guards, which left exactly 16 - align bytes of unchecked slack behind the object, and relied on the sanitizer, which does not
+     see writes made by libc's explicit_bzero: seeded/C04h.) */
+  { void *blk = NULL; if (posix_memalign (&blk, 16, sizeof (struct crypt_data) + (size_t)align + XC_TAIL)) { printf ("bad-op\n"); return; } objs[id].base = blk; }
+  objs[id].align = align;
+  memset (objs[id].base, 0xa7, (size_t)align);
+  if (XC_TAIL) memset (objs[id].base + align + sizeof (struct crypt_data), 0xa7, XC_TAIL);
   objs[id].d = (struct crypt_data *)(objs[id].base + align);
   unsigned char *p = (unsigned char *)objs[id].d;
   for (size_t i = 0; i < sizeof (struct crypt_data); i++)
@@ -103,6 +113,16 @@ static void wset_build (const unsigned char *ph, size_t pl)
   for (size_t a = 0; a < 8; a++)
     { size_t l = 0; for (size_t i = a; i + 8 <= pl; i += 8) for (int k = 7; k >= 0; k--) t[l++] = ph[i + (size_t)k]; wset_seq (t, l, 7); }
   explicit_bzero (t, 2 * pl + 16); free (t);
+#ifdef XC_HAVE_DIGESTS
+  /* the key HMAC really uses for a phrase longer than its block: H(phrase) - as good as the phrase for whoever finds it (seeded/C09h) */
+  if (pl > 64)
+    {
+      unsigned char dg[32]; struct sha1_ctx c1;
+      sha1_init_ctx (&c1); sha1_process_bytes (ph, &c1, pl); sha1_finish_ctx (&c1, dg); wset_seq (dg, 20, 8);
+      SHA256_Buf (ph, pl, dg); wset_seq (dg, 32, 8);
+      explicit_bzero (dg, sizeof dg); explicit_bzero (&c1, sizeof c1);
+    }
+#endif
 }
 static __attribute__((noinline)) int wset_lookup (uint64_t v)
 {
@@ -199,6 +219,13 @@ static void op_crypt (int n, char **tok)
   else if (d) printf (" wz=%d wu=? app=?", scratch_zero (d));
   else printf (" wz=? wu=? app=?");
   printf (" abort=%d", aborted);
+  if (d && !is_st && d == objs[id].d && objs[id].base)
+    { /* the bytes around the caller's object */
+      int edge = 1; unsigned char *b = objs[id].base;
+      for (int i = 0; i < objs[id].align; i++) if (b[i] != 0xa7) edge = 0;
+      for (int i = 0; i < XC_TAIL; i++) if (b[objs[id].align + sizeof (struct crypt_data) + (size_t)i] != 0xa7) edge = 0;
+      printf (" edge=%d", edge);
+    }
   if (d && phrase)
     { /* traces of the passphrase left in the object outside the application-owned fields */
       int tr = phrase_traces ((unsigned char *)d->output, sizeof d->output, (unsigned char *)phrase, plen)
